@@ -213,3 +213,43 @@ def test_function_style_partial_interpretation():
     finally:
         del c17.G.C.is_total
     assert c17.run(h).failure is None
+
+
+def test_late_registration():
+    # D is partial and layered like A/B/C whether or not it has rules; its sentinel answers only once registered
+    s, how = ref.enter(ref.enter(ref.BASE, "lazy")[0], "D")
+    assert how == "push" and s[-1] == ("prio", ("D", "lazy_base", "reflect"))
+    assert ref.predict(s[-1]) == ("Binary", "Reduce", "Binary", "ProbeTerm")
+    assert ref.predict(s[-1], None, True) == ("Binary", "Reduce", "Binary", "SENTD")
+    s, _ = ref.enter(s, "A")
+    assert ref.predict(s[-1], None, True)[3] == "SENT"  # innermost wins
+    assert ref.apply_event(s, ("reg",))[0] == s  # registration never touches the stack
+
+    from fv.props import c17
+
+    c17._setup(0)
+    h = (("with", "lazy"), ("with", "D"), ("probe",), ("reg",), ("probe",), ("exit",), ("probe",), ("exit",))
+    x = c17.run(h, record=True)
+    assert x.failure is None, x.failure.message
+    assert x.obs[2].endswith("ProbeTerm") and x.obs[4].endswith("SENTD") and x.obs[6].endswith("ProbeTerm")
+    assert x.trace[5][0] == "reflect;eager;lazy" and x.trace[7][0] == "reflect;eager"
+    # an interpretation that skips push/pop while rule-less pops a foreign frame after a late registration
+    cls = c17.G.fi.DispatchedInterpretation
+    base = c17.G.fi.Interpretation
+
+    def enter(self):
+        return self if not self.registry.registry else base.__enter__(self)
+
+    def exit_(self, *a):
+        return None if not self.registry.registry else base.__exit__(self, *a)
+
+    cls.__enter__, cls.__exit__ = enter, exit_
+    try:
+        x = c17.run(h)
+        assert x.failure is not None and x.failure.site == "Interpretation.__enter__" and x.failure.what == "length"
+        x = c17.run((("reg",),) + h)  # registered up front: this variant behaves
+        assert x.failure is None
+    finally:
+        del cls.__enter__, cls.__exit__
+    assert c17.run(h).failure is None
+    assert sum(1 for _ in c17.late_sequences(3, ())) == sum(1 for p in c17.late_sequences(2, ()) for _ in c17.late_sequences(3, p))
